@@ -14,7 +14,7 @@ from .common import Check
 
 LEVEL = "fault_enumeration"
 
-STDIN = ["close", "none", "half", "all", "slow"]
+STDIN = ["close", "none", "half", "all", "slow", "stream", "shead"]
 STDOUT = ["nothing", "half", "full", "fullbad", "bad", "reformat"]
 TERM = ["e0", "e1", "e2", "e3", "e101", "e255", "kill", "segv"]
 RAW = ["// RAWLINE-ONE-7f3a", "use core::ffi::c_void as RawLineTwo9c1d;"]
@@ -30,6 +30,8 @@ def big_header(n):
 
 
 def trusted(sin, sout, term):
+    if sin == "shead" and term in ("e0", "e3"):
+        return True   # a truncated but well-formed answer with a success status: trusted by design, like "half"
     """The property excludes a formatter that reports success (exit 0, or the documented partial success 3)
     and returns well-formed (valid UTF-8) text: its output is trusted by design."""
     return term in ("e0", "e3") and sout not in ("fullbad", "bad")
@@ -54,6 +56,12 @@ def run(ck, only=None):
     big = os.path.join(wd, "big.h")
     nbig = 5000 if ck.tier == "thorough" else 1200
     open(big, "w").write(big_header(nbig))
+    # sizes on both sides of every buffer the protocol can meet: one pipe buffer (64 KiB), two, and 1 MiB
+    mids = []
+    for tag, n in (("s40k", 19), ("s100k", 48), ("s300k", 140), ("s700k", 330)):
+        pth = os.path.join(wd, tag + ".h")
+        open(pth, "w").write(big_header(n))
+        mids.append((tag, pth))
     cfg = os.path.join(wd, "rustfmt.toml")
     open(cfg, "w").write("max_width = 70\n")
     # spawn faults
@@ -76,6 +84,8 @@ def run(ck, only=None):
             for term in TERM:
                 if sin in ("close", "none") and sout in ("half", "full", "reformat"):
                     continue  # nothing was read, so these equal "nothing"
+                if sin in ("stream", "shead") and sout not in ("nothing", "bad"):
+                    continue  # the streaming modes echo while reading; only a trailing invalid sequence can be added
                 tuples.append((sin, sout, term))
     jobs, meta = [], {}
 
@@ -100,8 +110,10 @@ def run(ck, only=None):
         sizes = [("small", small)]
         # the large input matters where pipes can fill up: every tuple in the thorough tier; in quick the tuples
         # with partial / no reading or slow reading, and one full echo
-        if ck.tier == "thorough" or (sin in ("none", "half", "slow", "close") and term in ("e0", "e1", "e3", "kill")) or (sin, sout) == ("all", "full"):
+        if ck.tier == "thorough" or (sin in ("none", "half", "slow", "close", "stream", "shead") and term in ("e0", "e1", "e3", "kill")) or (sin, sout) == ("all", "full"):
             sizes.append(("big", big))
+            if ck.tier == "thorough" or term in ("e1", "kill"):
+                sizes += mids
         for size, hdr in sizes:
             confs = [False, True] if (ck.tier == "thorough" or (size == "small" and term in ("e1", "kill"))) else [False]
             for conf in confs:
@@ -114,6 +126,8 @@ def run(ck, only=None):
         for size, hdr in (("small", small), ("big", big)):
             for conf in ((False, True) if fmt == "rustfmt" else (False,)):
                 add("real-" + fmt, hdr, size, fmt, None, conf, False, f"real formatter {fmt}")
+    if not only or only.startswith("cli|"):
+        cli_part(ck, ffdir, [("small", small), ("big", big)] + mids, only)
     res = common.run_jobs(jobs, wd, timeout=120, threads=8 if ck.tier == "quick" else 12)
     for jid, r in res.items():
         ck.count()
@@ -135,7 +149,7 @@ def run(ck, only=None):
             problems.append(f"header comment / raw lines not exactly once and first (header x{r['header_count']}, raw x{r['raw_counts']}, preamble_ok={r['preamble_ok']})")
         if not r["valid_utf8"]:
             problems.append("output is not valid UTF-8")
-        echo_ok = tag.startswith(("ff-all-", "ff-slow-")) and tag.split("-")[2] in ("full", "reformat")
+        echo_ok = (tag.startswith(("ff-all-", "ff-slow-")) and tag.split("-")[2] in ("full", "reformat")) or tag.startswith("ff-stream-nothing-")
         if tag.startswith("real-") or fallback or echo_ok:
             # token identity is required: real formatters, every failure mode, and echoing fakes
             if not r["tokens_equal"]:
@@ -154,6 +168,46 @@ def run(ck, only=None):
         common.guard(ck.extra["big_bindings_bytes"] > 1_000_000, "C15 vacuity: large bindings are not larger than the pipe buffers")
     ck.assume("a formatter that exits 0 or 3 with valid UTF-8 is trusted by design (its tuples are run for hang/panic/preamble only); "
               "a child that neither reads nor exits is outside the property's fault list and not generated")
+
+
+def cli_part(ck, ffdir, sizes, only=None):
+    """The same protocol through the real command-line binary (its process-level set-up - signal dispositions, stdio - is part
+    of what the user runs): formatter taken from $RUSTFMT, output must be produced, exit 0, and equal to --formatter none."""
+    import subprocess
+    tuples = [("close", "nothing", "e0"), ("close", "nothing", "e1"), ("none", "nothing", "e1"), ("none", "nothing", "kill"), ("half", "half", "e1"),
+              ("half", "nothing", "kill"), ("all", "full", "e0"), ("all", "fullbad", "e0"), ("slow", "full", "e1"), ("all", "nothing", "segv"),
+              ("stream", "nothing", "e1"), ("stream", "nothing", "kill"), ("shead", "nothing", "e1"), ("stream", "nothing", "e0")]
+    if ck.tier != "thorough":
+        sizes = [s for s in sizes if s[0] in ("small", "s100k", "s700k", "big")]
+
+    def one(job):
+        (sin, sout, term), (size, hdr) = job
+        link = os.path.join(ffdir, f"ff-{sin}-{sout}-{term}")
+        if not os.path.lexists(link):
+            os.symlink(os.path.join(ffdir, "fake_fmt"), link)
+        env = dict(common.ENV, RUSTFMT=link)
+        try:
+            p = subprocess.run([common.CLI, hdr, "--formatter", "rustfmt", "--raw-line", RAW[0]], env=env, stdout=subprocess.PIPE, stderr=subprocess.PIPE, timeout=90)
+            return job, p.returncode, p.stdout, p.stderr.decode(errors="replace")[-300:]
+        except subprocess.TimeoutExpired:
+            return job, "timeout", b"", ""
+
+    refs = {}
+    for size, hdr in sizes:
+        p = subprocess.run([common.CLI, hdr, "--formatter", "none", "--raw-line", RAW[0]], env=common.ENV, stdout=subprocess.PIPE, stderr=subprocess.PIPE, timeout=90)
+        common.guard(p.returncode == 0, "C15 CLI reference run failed: " + p.stderr.decode(errors="replace")[-300:])
+        refs[size] = p.stdout
+    jobs = [(t, s) for t in tuples for s in sizes if not only or only == f"cli|ff-{t[0]}-{t[1]}-{t[2]}|{s[0]}"]
+    for (t, (size, hdr)), rc, out, err in common.pmap(one, jobs, threads=8):
+        ck.count()
+        jid = f"cli|ff-{t[0]}-{t[1]}-{t[2]}|{size}"
+        ck.nontriv(jid)
+        det = {"job": jid}
+        if rc != 0:
+            ck.violation(jid + " cli-died", dict(det, why=f"the bindgen process ended with {rc} instead of writing unformatted bindings ({err.strip()[-160:]})"))
+        elif (not trusted(*t) or (t[0], t[1]) in (("all", "full"), ("stream", "nothing"))) and out.split() != refs[size].split():
+            ck.violation(jid + " cli-output", dict(det, why=f"output differs from --formatter none beyond whitespace (got {len(out)} bytes, reference {len(refs[size])})"))
+    ck.extra["cli_runs"] = len(jobs)
 
 
 def replay(ck, case, detail):
